@@ -61,6 +61,19 @@ def _run(events: list) -> bool:
     track.entered()
     s = Scenario(STAGE, world_kw={"noise_psk": PSK} if NOISE else None)
     try:
+        armed_after_close: list = []
+
+        def mon(sc: Scenario) -> None:
+            # the keep-alive and pong timers are cancelled by the close itself: from then on, at every
+            # observation point (also before the loop has gone quiet), neither may be armed again
+            c = sc.conn
+            if c.connection_state is CLOSED and not armed_after_close:
+                for h in sc.loop.live_timers():
+                    cb = h._callback
+                    if getattr(cb, "__self__", None) is c and getattr(cb, "__name__", "") in ("_async_send_keep_alive", "_async_pong_not_received"):
+                        armed_after_close.append(cb.__name__)
+
+        s.monitors.append(mon)
         for a in events:
             ev = ALPHA[concretize(a, NA - 1)]
             if not s.apply(ev):
@@ -76,6 +89,8 @@ def _run(events: list) -> bool:
             return True  # nothing to audit
         if track.reached():
             return False
+        if armed_after_close:
+            return track.fail(f"keep-alive timer {armed_after_close[0]} armed on a closed connection; trace={s.trace}")
         bad = audit(s)
         if bad is not None:
             return track.fail(f"{bad[0]}; trace={s.trace}", bad[1])
